@@ -62,9 +62,15 @@ fn got_suites(v: &[Option<&'static TlsCipherSuite>], ids: &[u16], what: &str) ->
         match (g, w) {
             (None, None) => {}
             (Some(s), Some(r)) => {
-                // "its registry entry": the whole entry (all ten columns of the registry row for that id), not only id and name
-                if let Some((col, d)) = super::c12::suite_differs(s, r) {
-                    return fail(format!("C15:{}:wrong-entry:{}", what, col), format!("{}: position {} (id {:#06x}) maps to an entry that is not the registry entry of that id: {}", what, i, ids[i], d));
+                // "its registry entry": the whole entry (all ten columns of the registry row for that id), not only id and name.
+                // The registry is static: an entry at an address whose contents were already compared in full is not compared again.
+                thread_local! { static SEEN: std::cell::RefCell<Vec<usize>> = std::cell::RefCell::new(vec![0usize; 65536]); }
+                let addr = *s as *const TlsCipherSuite as usize;
+                if SEEN.with(|v| v.borrow()[r.id as usize]) != addr {
+                    if let Some((col, d)) = super::c12::suite_differs(s, r) {
+                        return fail(format!("C15:{}:wrong-entry:{}", what, col), format!("{}: position {} (id {:#06x}) maps to an entry that is not the registry entry of that id: {}", what, i, ids[i], d));
+                    }
+                    SEEN.with(|v| v.borrow_mut()[r.id as usize] = addr);
                 }
             }
             (Some(s), None) => return fail(format!("C15:{}:phantom", what), format!("{}: unlisted id {:#06x} at position {} maps to {}", what, ids[i], i, s.name)),
